@@ -131,6 +131,24 @@ class Output:
 
     def format(self) -> List[Dict]:
         for statement in self.parser_output:
+            if _verif.ENABLED:
+                _kind = (
+                    "index"
+                    if "index_name" in statement
+                    else "alter"
+                    if "alter_table_name" in statement
+                    else "table"
+                    if statement.get("table_name")
+                    else "other"
+                )
+                _target = list(
+                    get_table_id(
+                        statement.get(self.schema_key) or statement.get("schema"),
+                        statement.get("alter_table_name")
+                        or statement.get("table_name")
+                        or "",
+                    )
+                )
             # process each item in parser output
             if "index_name" in statement or "alter_table_name" in statement:
                 self.process_alter_and_index_result(statement)
@@ -141,6 +159,8 @@ class Output:
             if _verif.ENABLED:
                 _verif.emit(
                     "Apply",
+                    kind=_kind,
+                    target=_target,
                     n_entities=len(self.final_result),
                     table_ids=[list(k) for k in self.tables_dict],
                     columns={
